@@ -98,6 +98,82 @@ def tapped_mask(field, **kw):
     return res, got.get("mask")
 
 
+def otsu_oracle(data):
+    """the definition, with exact arithmetic on the 256-bin histogram of ALL cells (numpy's histogram on the full data, the rest in rationals):
+    bin centre maximising w1 * w2 * (m1 - m2)^2 over the 255 splits (first maximum); also returns the relative gap to the runner-up"""
+    counts, edges = np.histogram(np.asarray(data, dtype=float).ravel(), bins=256)
+    ctr = [Fraction(float((edges[i] + edges[i + 1]) / 2)) for i in range(256)]  # the bin centres as floats, then exact
+    c = [int(x) for x in counts]
+    tot, stot = sum(c), sum(ci * xi for ci, xi in zip(c, ctr))
+    best, var, w1, s1 = None, [], 0, Fraction(0)
+    for i in range(255):
+        w1 += c[i]
+        s1 += c[i] * ctr[i]
+        w2, s2 = tot - w1, stot - s1
+        v = None if w1 == 0 or w2 == 0 else w1 * w2 * (s1 / w1 - s2 / w2) ** 2
+        var.append(v)
+    if any(v is None for v in var):
+        return None, 0.0
+    top = max(var)
+    idx = var.index(top)
+    rest = [v for k, v in enumerate(var) if k != idx]
+    gap = float((top - max(rest)) / top) if top > 0 else 0.0
+    return ctr[idx], gap
+
+
+def large_images(ck: Check, quick: bool):
+    """fields with more than 2**20 cells (the property quantifies over all fields): under 'otsu' the droplets are those of the binary image of cells
+    exceeding the bin centre that maximises the between-class variance of the 256-bin histogram of ALL cells - oracle independent of the library"""
+    from pde import CartesianGrid, ScalarField
+    from droplets.droplets import DiffuseDroplet
+    from droplets.emulsions import Emulsion
+    from droplets.image_analysis import locate_droplets_in_mask
+
+    rng = ck.rng
+    shapes = [(1100, 1000)] if quick else [(1100, 1000), (112, 100, 100), (1536, 1536)]
+    for shape in shapes:
+        dim = len(shape)
+        grid = CartesianGrid([[0, n] for n in shape], list(shape), periodic=[rng.random() < 0.5 for _ in shape])
+        R = min(shape) / 9
+        drops = [DiffuseDroplet([rng.uniform(0.25, 0.75) * n for n in shape], R * rng.uniform(0.6, 1.0), rng.uniform(2, 6))]
+        for _ in range(40):
+            d = DiffuseDroplet([rng.uniform(0.1, 0.9) * n for n in shape], R * rng.uniform(0.5, 1.0), rng.uniform(2, 6))
+            if all(np.linalg.norm(d.position - e.position) > 2.6 * R for e in drops):
+                drops.append(d)
+            if len(drops) == 4:
+                break
+        base = Emulsion(drops).get_phasefield(grid).data
+        nrng = np.random.default_rng(rng.randrange(2**31))
+        j = np.rint(base * 1024).astype(np.int64) + np.rint(nrng.normal(0, 12, size=base.shape)).astype(np.int64)
+        # one hot and one cold pixel: the extreme values (which fix the histogram's range) are attained once each, anywhere in the image
+        hot, cold = (int(x) for x in nrng.choice(j.size, size=2, replace=False))
+        j.flat[hot], j.flat[cold] = int(j.max()) + rng.randrange(3, 40), int(j.min()) - rng.randrange(3, 40)
+        data = j.astype(float) / 1024.0  # multiples of 2^-10: comparisons with the threshold are exact
+        thr, gap = otsu_oracle(data)
+        case = {"kind": "large-image", "shape": list(shape), "periodic": [bool(p) for p in grid.periodic], "droplets": [str(d) for d in drops], "cells": int(data.size)}
+        ck.case(("large", shape, data[::97].tobytes()[:4096]))
+        ck.count("large_images")
+        if thr is None or gap < 1e-9:
+            ck.count("large_images.knife_edge_skipped")
+            continue
+        field = ScalarField(grid, data)
+        res, mask = tapped_mask(field, threshold="otsu", minimal_radius=1.0)
+        sig = {"grid": "CartesianGrid", "check": "locate_factors_through_mask", "rule": "otsu", "cells_over_2**20": True}
+        if res[0] == "err":
+            ck.fail(f"locate_droplets(threshold='otsu') raised {res[1]} on a field with {data.size} cells", sig, case)
+            continue
+        want = data > float(thr)
+        if mask is None or not np.array_equal(mask, want):
+            ndiff = -1 if mask is None else int(np.sum(mask != want))
+            ck.fail(f"rule otsu on a field with {data.size} cells: the binary image is not (data > {float(thr)}), the bin centre maximising the between-class "
+                    f"variance of the 256-bin histogram of all cells ({ndiff} cells differ)", sig, case)
+            continue
+        ref = locate_droplets_in_mask(ScalarField(grid, want, dtype=bool))
+        ref.remove_small(1.0)
+        if emulsion_key(res[1]) != emulsion_key(ref):
+            ck.fail(f"rule otsu on a field with {data.size} cells: result differs from locating in the thresholded image", sig, case)
+
+
 def run_cases(ck: Check, n: int):
     from pde import ScalarField
     from droplets.image_analysis import locate_droplets_in_mask, threshold_otsu
@@ -272,18 +348,22 @@ def refine_filter_cases(ck: Check, n: int):
 def replay(case: dict):
     ck = Check("C18", "quick", 0)
     run_cases(ck, 300)
+    if case.get("kind") == "large-image":
+        large_images(ck, True)
     return not ck.failures, "; ".join(f["what"] for f in ck.failures[:3]) or "property holds on re-run"
 
 
 def run(ck: Check):
     ck.rule = ("random dyadic-valued fields (constant, binary, noise, blobs, two-level+noise; ranges and offsets as powers of two times small integers) on "
                "Cartesian 1-3-D (periodic or not), polar, spherical and cylindrical grids x {extrema, auto, mean, otsu, numeric} x exact affine maps x "
-               "minimal radii at/between/above the occurring radii; non-trivial = distinct non-constant fields")
+               "minimal radii at/between/above the occurring radii; fields with more than 2**20 cells under 'otsu' against an exact oracle on the histogram of all cells; "
+               "non-trivial = distinct non-constant fields")
     ck.assumptions = ["dyadic data: the float evaluation of min+max, the sum, the histogram edges and a*x+b is exact, so the rational model decides the same comparisons",
                       "otsu cases with two best variances within 1e-9 relative are skipped (counted in stats)",
                       "calls on which the real code raises are skipped here (C09 decides them)"]
     ck.lean = lean_stage("C18", leanchecker=not ck.quick)
     run_cases(ck, ck.budget(600, 6000))
     refine_filter_cases(ck, ck.budget(12, 200))
+    large_images(ck, ck.quick)
     if (not ck.lean.ok or ck.mismatches) and not ck.failures:
         run_cases(ck, 2000)
